@@ -211,7 +211,7 @@ def float_values(rng, B, p):
     return s, e
 
 def gen_floats(rng, tier):
-    cnt = 5000 if tier == "quick" else 400000
+    cnt = 5000 if tier == "quick" else 240000   # round 6: thinned (400000) for the thorough-tier budget
     ops = ["f.trunc", "f.floor", "f.ceil", "f.round", "f.round", "f.fract", "f.split", "f.to_int", "f.to_int",
            "f.to_int", "f.repr_to_int"]
     for _ in range(cnt):
@@ -237,7 +237,7 @@ def gen_floats(rng, tier):
             s = (B ** d - 1) * rng.choice([1, -1])
         e = -d + rng.choice([-3, -2, -1, 0, 1, 2, d // 60, d // 40, d // 25])
         yield Case(rng.choice(ops), [fenc(B, s, e, d, m)])
-    cnt = 1500 if tier == "quick" else 120000
+    cnt = 1500 if tier == "quick" else 80000   # round 6: thinned (120000)
     for _ in range(cnt):
         B = rng.choice(BASES); m = rng.choice(MODES)
         p = rng.choice(PRECS)
@@ -363,7 +363,7 @@ def gen_f32(rng, tier):
         yield Case("s32.dec", [sbytes(t)])
         m = (rand_m(rng), rng.randrange(-20, 41))
         yield Case(rng.choice(["s32.nextup", "s32.nextdown"]), [dec(f32bits(*m))])
-    n = 300 if tier == "quick" else 60000
+    n = 300 if tier == "quick" else 20000   # round 6: thinned (60000); the thorough s32.sweep covers every integer anyway
     for _ in range(n):
         v = rng.choice([rng.randrange(2, 1 << 24), rng.randrange(1 << 23, (1 << 24) + 1), rng.randrange(2, 70)])
         e = v.bit_length() - 1
@@ -406,6 +406,46 @@ def gen_f32(rng, tier):
         chunks = [(max(1, i * step), (i + 1) * step + (1 if i == 63 else 0)) for i in range(64)]
     for lo, hi in chunks:
         yield Case("s32.sweep", [dec(lo), dec(hi)])
+
+# ----------------------------------------------------------------------------- round 6: the digit estimates themselves
+
+DEST_BASES = [2, 3, 7, 10, 16, 36, 1000, 1 << 32, (1 << 64) - 1]
+
+def gen_dest(rng, tier):
+    """`s32.dest d:<B> <n>`: Repr::<B>::new(n, 0).digits_lb() / digits_ub() of dashu against digitsLbReal / digitsUbReal (the
+    definitions of Props/C10F32.digits_estimates_enclose_libm) evaluated by the soft-float replica, the compiled-Float32 replica
+    beside it, and the enclosure digits_lb <= digits <= digits_ub.  Classes from the branch conditions of digits_lb / digits_ub
+    (B = 2 / 10 / other) and of log2_bounds (power of two, <= 24 bits, 25..128 bits, heap): B^k, B^k +- 1, B^k + small (significand
+    just above a power of the base: the estimate falls one short), B^k - 1 (all digits maximal: product closest to the next
+    integer), c * B^k, 2^j +- 1, random of every size class; k of every digit count up to 130 and sampled up to 5000."""
+    quick = tier == "quick"
+    def ks_for(B):
+        lim = max(2, 9000 // B.bit_length())          # operand sizes up to ~9000 bits
+        ks = list(range(0, min(lim, 131 if not quick else 42)))
+        extra = [200, 317, 1000, 2500, 5000] if not quick else [200, 1000]
+        ks += [k for k in extra if k <= lim]
+        if quick:
+            ks = [k for k in ks if k < 12 or k % 3 == rng.randrange(3) or k > 130]
+        return ks
+    for B in DEST_BASES:
+        for k in ks_for(B):
+            bk = B ** k
+            vals = {bk, bk + 1, bk - 1, bk + rng.randrange(1, B), 2 * bk + 1, (B - 1) * bk + rng.randrange(0, max(1, bk >> 20) + 1),
+                    bk + (bk >> 23), bk + (bk >> 25) + 1, bk - (bk >> 24) - 1}
+            for v in sorted(vals):
+                if v > 0:
+                    yield Case("s32.dest", [dec(B), hx(v)])
+    cnt = 250 if quick else 30000
+    for _ in range(cnt):
+        B = rng.choice(DEST_BASES)
+        bits = rng.choice([rng.randrange(1, 25), rng.randrange(25, 129), rng.randrange(129, 400), rng.choice([640, 2000, 9000])])
+        v = (1 << (bits - 1)) | rng.getrandbits(bits - 1)
+        r = rng.random()
+        if r < 0.2:
+            v = (1 << bits) - 1
+        elif r < 0.3:
+            v = (1 << (bits - 1)) + 1
+        yield Case("s32.dest", [dec(B), hx(v)])
 
 # ----------------------------------------------------------------------------- E1: machine extremes of isize / usize parameters
 
@@ -457,6 +497,7 @@ def generate(rng, tier):
     yield from gen_primitives(rng, tier)
     yield from gen_f32(rng, tier)
     yield from gen_extreme(rng, tier)
+    yield from gen_dest(rng, tier)
     yield from gen_coarse_directed(rng, tier)
     yield from gen_floats(rng, tier)
     yield from gen_rational(rng, tier)
@@ -491,7 +532,10 @@ RULE = ("primitives: the complete grid integer {-2..2} x fraction {0,+-1,+-(h-1)
         "(0.999, 1.001, LOG10_2, ...) and random literals; next_up / next_down; log2f on 24-bit integers; dashu's UBig::log2_bounds on "
         "every size class (2^j, 2^j+-1 for j <= 4096, < 2^24, 25..128 bits, heap values with power-of-two / all-ones highest double "
         "word, up to 2^20 words); s32.sweep = libm log2f on EVERY integer of a range against a rigorous integer enclosure of log2 "
-        "(quick: 4 windows of 1-2 k integers; thorough: ALL of 1..2^24 in 64 chunks). Machine extremes (addendum E1): exponents "
+        "(quick: 4 windows of 1-2 k integers; thorough: ALL of 1..2^24 in 64 chunks). Digit estimates (s32.dest: digits_lb / digits_ub of "
+        "Repr<B>, B in {2,3,7,10,16,36,1000,2^32,2^64-1}, against the soft-float evaluation of digitsLbReal / digitsUbReal and the "
+        "enclosure): B^k, B^k+-1, B^k+small, B^k-1, c*B^k for every k <= 130 and sampled up to 5000 digits / 9000 bits, random of every "
+        "log2_bounds size class. Machine extremes (addendum E1): exponents "
         "+-2^20.., +-2^31, +-(2^32-1), +-2^32, +-(2^32+k), +-2^62, isize::MAX-k, isize::MIN+k (k = 0..130, quick 9 values) through "
         "trunc/floor/ceil/round/fract/split_at_point/Repr::to_int (FBig::to_int down to -(2^20+k)); context precision and "
         "with_precision argument at 2^31, 2^32-1, 2^32, 2^32+k, 2^63, usize::MAX-k. Non-trivial := non-zero low part / fractional digits "
@@ -522,7 +566,11 @@ REFINED = ["Round::round_low_part x6 (regenerated, Props/GenRound)", "Round::rou
            "TypedReprRef::log2_bounds as a whole (`log2LbModel` / `log2UbModel`: std u128 routine incl. next_down side, "
            "log2_bounds_large with highest double word, `rem_bits as f32`, the exact factors 1 -+ ADJUST): enclosure (E) and slack (S) "
            "proved from (LIBM) alone for operands up to 2^30 bits (Proofs/Float/{Log2Lb,Log2Large}.lean, "
-           "Props/C10F32.log2_bounds_enclose, coarse_test_sound_libm)"]
+           "Props/C10F32.log2_bounds_enclose, coarse_test_sound_libm)",
+           "Repr::digits_lb (`digitsLbReal`: lb, lb * LOG10_2, lb / log2_bounds(B).1, `as usize`): digits_lb <= digits proved from "
+           "(LIBM) alone with log2_bounds of significand and base = their models (Proofs/Float/DigitsLb.lean, "
+           "Props/C10F32.digits_lb_sound_libm, dlb_sound_ieee = hypothesis DlbSound of the C03 / C11 theorems, "
+           "digits_estimates_enclose_libm: digits_lb <= digits <= digits_ub); LOG10_2 enclosed from both sides (LOG10_2_two_sided)"]
 FRONTIER = ["round_fract coarse test for precision > 2^24 digits (`precision as f32` rounds): no theorem. Reason: with relative-error "
             "reasoning the budget is exactly exhausted at first order - the ADJUST factor of log2_bounds_large gives 4u, the two "
             "roundings inside it, the sum `lb + 0.999` and the product `b_ub * k` take u each, so the additional rounding of k (u) is "
@@ -538,11 +586,13 @@ FRONTIER = ["round_fract coarse test for precision > 2^24 digits (`precision as 
             "coarse_test_sound_libm (the coarse test of round_fract decides as the exact comparison on its whole region) and "
             "digits_ub_sound_libm (digits <= digits_ub for every base held in a word and every significand up to 2^30 bits, with "
             "log2_bounds of the significand and of the base = their models). The thorough tier checks (LIBM) on ALL 2^24 integers of "
-            "this machine's libm against an integer-arithmetic enclosure (s32.sweep), the quick tier on samples. Not composed: "
-            "digits_lb (lower estimate) with the same models; the no_std table estimator has its own libm-free theorem "
+            "this machine's libm against an integer-arithmetic enclosure (s32.sweep), the quick tier on samples. Round 6: the lower "
+            "estimate digits_lb composed with the same models too (digits_lb_sound_libm: digits_lb <= digits, significands up to "
+            "2^30 bits and 2^21 digits; LOG10_2 lies ABOVE log10 2, so for base 10 only `<= digits`, not `<= digits - 1`, "
+            "follows - which is what DlbSound asks); the no_std table estimator has its own libm-free theorem "
             "(Props/C10EstNoStd)",
             "machine integers: exponents / precisions are unbounded Int / Nat in the model; isize / usize overflow is outside every "
-            "theorem and is covered by the E1 generator only (finding: exponent isize::MIN panics in builds with overflow checks)"]
+            "theorem and is covered by the E1 generator only (the one defect it found, exponent isize::MIN negated with overflow, is repaired in /repo 7e1bdaf: `unsigned_abs`)"]
 THEOREMS = ["Dashu.Props.C10." + t for t in (
     "round_fract_follows_mode round_fract_estimate_irrelevant round_ratio_follows_mode round_fract_contract digit_len_spec "
     "split_digits_all_paths shl_digits_all_paths shr_digits_all_paths repr_new_value_normalized repr_round_contract "
@@ -566,7 +616,8 @@ THEOREMS = ["Dashu.Props.C10." + t for t in (
     "soft_div_sub_are_rne32 Exhaustive.small_integers_exact Exhaustive.integers_around_2_24 Exhaustive.ties_every_binade "
     "Exhaustive.source_literals Exhaustive.next_up_down_all_binades Exhaustive.bits_roundtrip log2_ub_std_sound "
     "digits_ub_inline_sound log2_bounds_enclose log2_bounds_sound_libm coarse_test_sound_libm libm_hypothesis_satisfiable "
-    "digits_ub_sound_libm").split()]
+    "digits_ub_sound_libm LOG10_2_two_sided digits_lb_sound_ieee dlb_sound_ieee digits_lb_sound_libm "
+    "digits_estimates_enclose_libm").split()]
 EXPLANATION = ("Lean theorems, for every base >= 2, every precision and all integers: the regenerated six mode tables composed with the "
                "exact half comparison (round_fract, round_ratio) return the adjustment the mode's definition names; repr_round / "
                "with_precision satisfy the rounding contract over Rat; trunc+fract = x, split_at_point = (trunc, fract) and "
@@ -600,6 +651,6 @@ LEVEL_NOTE = ("Trusted: Lean kernel; axioms propext/Classical.choice/Quot.sound;
               "for the hand-written model; the f32 estimators: IEEE arithmetic facts proved for the concrete rounding function rne32 and "
               "tied to the machine per case through the soft-float replica, libm's log2f accuracy assumed (exhaustively checked on the "
               "running machine in the thorough tier). The defect found here (split_at_point_internal's smaller-than-one shortcut) is repaired in /repo (f9ab1b6); "
-              "its witnesses stay in corpus/C10 as regression cases. Open finding: exponent == isize::MIN panics (negation overflow) in "
-              "trunc/floor/ceil/round/fract/split_at_point (proposed_fixes/c10-roundops-exponent-min-negate.diff).")
+              "its witnesses stay in corpus/C10 as regression cases; likewise the negation overflow for exponent == isize::MIN in "
+              "trunc/floor/ceil/round/fract/split_at_point/to_int (7e1bdaf, corpus/C10/exponent_isize_min.case). No open finding.")
 TECHNIQUE = "Lean 4 proofs over a mirrored model (regenerated decision tables + hand-written arithmetic) + differential correspondence"
